@@ -6,12 +6,25 @@ set -e
 cd "$(dirname "$0")/.."
 mkdir -p .build evidence replays
 targets=$(python3 - <<'PY'
-import json
-m=json.load(open('MANIFEST.json'))
-t=[]
+import json, os, sys, importlib
+sys.path.insert(0, 'tools')
+m = json.load(open('MANIFEST.json'))
+t = []
+def add(x):
+    if x not in t:
+        t.append(x)
 for c in m['checks']:
-    p=c['property_id']
-    t += ['Osmium.Props.'+p, 'model_'+p.lower()]
+    p = c['property_id'].lower()
+    parts = [f[:-3] for f in sorted(os.listdir('tools/props')) if f.startswith(p + '_') and f.endswith('.py')]
+    if parts:
+        # property assembled from per-format parts: each names its Lean modules and drivers
+        for name in parts:
+            mod = importlib.import_module('props.' + name)
+            for x in getattr(mod, 'MODULES', []) + getattr(mod, 'EXES', []):
+                add(x)
+    else:
+        add('Osmium.Props.' + p.upper())
+        add('model_' + p)
 print(' '.join(t))
 PY
 )
